@@ -9,16 +9,21 @@ META = {
                  "control flow) + recording-context oracle on generated templates + exact correspondence of the model "
                  "analysis with the real report and of the model semantics with the recorded look-ups",
     "category": "proof",
-    "text": "Kernel-checked: for every single-file template (emit, for with filter/else/recursive/break/continue, if, "
-            "with, set, set/filter blocks, autoescape, blocks rendered in place and through self.name(), macros with "
-            "defaults and closures, call blocks, do; every expression form) and every choice of branches, iteration "
-            "counts, macro invocations, loop re-entries and block calls (nested to any depth), each context key the "
-            "reference semantics asks for is in findUndeclared and is the root of a name in findUndeclaredNested, except "
-            "the own name of a macro that mentions itself (known finding, proved to be the only exception and proved to "
-            "be a real counterexample).  Tie: the real AST of each generated template is run through the Lean model and "
-            "must give exactly the sets Template::undeclared_variables(false) and (true) return; the keys a recording "
-            "context object sees during real renders must be contained in the real report (oracle, nested=true by "
-            "prefix) and in the union of the model semantics' look-ups over all choice trees.",
+    "text": "Kernel-checked, without exception (C18_full is a theorem): for every template (emit, for with filter/else/"
+            "recursive/break/continue, if, with, set incl. tuple and ns.attr targets, set/filter blocks, autoescape, "
+            "blocks rendered in place and through self.name(), macros with defaults and closures, nested and recursive "
+            "macros, call blocks, do, the name expressions of include/import/from-import/extends; every expression "
+            "form) and every choice of branches, iteration counts, macro invocations, loop re-entries and block calls "
+            "(nested to any depth), failing renders cut after any number of look-ups included, each context key the "
+            "reference semantics asks for is in findUndeclared and is the root of a name in findUndeclaredNested; every "
+            "dotted name of the nested report is an attribute path of the template; macro bodies ask the context for "
+            "nothing (closure visibility); an aborted execution's look-ups are a prefix; expression code emits no binding "
+            "instruction (regenerated tables).  Tie: the real AST of each generated case is run through the Lean model "
+            "and must give exactly the sets undeclared_variables(false) and (true) return; the model's closure analysis "
+            "must equal the Enclose/BuildMacro instructions of the compiled template; the keys and attribute paths a "
+            "recording context sees during real renders (render, Expression::eval, render_captured + render_block + "
+            "call_macro; four undefined modes; named/from_str; custom syntax; child templates) must be contained in the "
+            "real report (oracle) and in the union of the model semantics' look-ups over all choice trees.",
     "design_ref": "DESIGN.md §3 C18",
     "level_note": "Trusted: Lean kernel; hand transcription of meta.rs (track_walk & co.) and of the scoping behaviour of "
                   "codegen.rs/context.rs into MJ/Model/Meta.lean — the analysis part is validated exactly on every "
@@ -29,7 +34,6 @@ META = {
                   "nested=true mode, debug-mode error reports, globals.",
 }
 
-KNOWN_SITE = "macro-own-name-enclosed"
 
 
 def parse_model(line):
@@ -46,11 +50,12 @@ def run(r):
               "contexts (all truthy / mixed kinds / sparse+falsy); a case = one template, non-trivial when it parsed, "
               "is distinct, and at least one render asked the context for a key")
     r.assumptions = [
-        "expression-level control flow only skips look-ups (expressions bind no names)",
-        "an aborted render performs a prefix of the look-ups of the completed run",
-        "macro bodies see only their closure frame, their locals and the base context (vm::eval_macro)",
+        "the look-ups of OTHER templates (included, imported, extended) belong to those templates' own reports",
+        "expression-level control flow only skips look-ups (the model looks every variable leaf up); that expression "
+        "code cannot bind names is tied to codegen.rs/vm/mod.rs by the regenerated instruction tables",
+        "requests (loop re-entries, self.name()) are served with the frames of the start of their statement",
     ]
-    r.regen_tables()
+    r.regen_tables(["C18_EXPR_FUNCTIONS", "C18_EXPR_CALLEES", "C18_EXPR_INSTRUCTIONS", "C18_BINDING_INSTRUCTIONS"])
     r.lean_prove("MJ.Props.C18", "MJ/Audit/C18.lean", extra_targets=["drive_c18"])
     exe = r.cargo_build("c18")
     if exe is None:
@@ -69,7 +74,7 @@ def run(r):
         r.broken.append("model driver output does not line up with the harness cases")
         model = None
     mi = 0
-    tie_checked = sem_checked = sem_skipped = 0
+    tie_checked = sem_checked = sem_skipped = closure_checked = 0
     for h, d in cases:
         src = bytes.fromhex(h).decode("utf-8", "replace")
         if d.get("parse") != "ok":
@@ -91,7 +96,9 @@ def run(r):
             if "panic" in (d.get("compile", "") + d.get("analysis", "")):
                 r.oracle_failure(h, f"compile/analysis panicked on {src!r}", "analysis-panic")
             continue
-        und, nested, glob = set(d["und"]), set(d["nested"]), set(d["globals"])
+        und, nested, glob = set(d["und"]), set(d["nested"]), set(d["globals"]) | set(d.get("foreign", []))
+        for part in d.get("cfg", "?").split("/"):
+            r.hist["config"][part] += 1
         allreads = set().union(*[set(x) for x in d["reads"]]) if d["reads"] else set()
         r.count(h, bool(allreads))
         for k, v in d["kinds"].items():
@@ -103,7 +110,6 @@ def run(r):
             r.sample({"template": src, "undeclared": sorted(und), "recorded": [sorted(x) for x in d["reads"]],
                       "outcome": d["outcome"]})
         # ---- correspondence A: model analysis == real analysis (as sets)
-        selfref = set()
         if m is not None:
             if "error" in m:
                 r.model_disagreement(h, "real parser accepted " + repr(src), "driver: " + m["error"])
@@ -111,13 +117,21 @@ def run(r):
                 tie_checked += 1
                 mund = set(m["und"].split())
                 mnested = set(m["nested"].split())
-                selfref = set(m["selfref"].split())
                 if mund != und:
                     r.model_disagreement(h, "undeclared_variables(false)=" + " ".join(sorted(und)),
                                          "findUndeclared=" + " ".join(sorted(mund)))
                 if mnested != nested:
                     r.model_disagreement(h, "undeclared_variables(true)=" + " ".join(sorted(nested)),
                                          "findUndeclaredNested=" + " ".join(sorted(mnested)))
+                # ---- correspondence C: closure analysis of the model == what the code generator emitted
+                if "macros" in d:
+                    closure_checked += 1
+                    mm = sorted(x for x in m.get("macros", "").split(";") if x)
+                    mm = [":".join(x.split(":")[:2] + [",".join(sorted(x.split(":")[2].split(","))) if x.split(":")[2] else ""]) for x in mm]
+                    if sorted(mm) != sorted(d["macros"]):
+                        r.model_disagreement(h, "BuildMacro/Enclose of the compiled template: " + " ; ".join(d["macros"]),
+                                             "callerRef/closureNames of the model: " + " ; ".join(sorted(mm)))
+                    r.hist["closure_tie"]["macros"] += len(d["macros"])
         # ---- oracle: recorded keys ⊆ report ∪ globals  (and nested: prefix roots)
         for ci, keys in enumerate(d["reads"]):
             for k in keys:
@@ -128,15 +142,33 @@ def run(r):
                     r.hist["oracle"]["global"] += 1
                     continue
                 if k not in und:
-                    site = KNOWN_SITE if k in selfref else "unreported-read"
+                    site = "unreported-read"
                     r.oracle_failure(h, f"render (context {ci}) asked the context for `{k}` but "
                                         f"undeclared_variables(false) = {sorted(und)} for {src!r}", site)
                 else:
                     r.hist["oracle"]["reported"] += 1
                 if not any(n == k or n.startswith(k + ".") for n in nested):
-                    site = KNOWN_SITE if k in selfref else "unreported-read-nested"
+                    site = "unreported-read-nested"
                     r.oracle_failure(h, f"render (context {ci}) asked the context for `{k}` but no name of "
                                         f"undeclared_variables(true) = {sorted(nested)} starts with it, for {src!r}", site)
+        # ---- oracle, attribute level: every attribute path the render followed from a context key is
+        #      compatible with a reported dotted name (one is a prefix of the other)
+        for ci, ps in enumerate(d.get("paths", [])):
+            for pth in ps:
+                comps = pth.split(".")
+                if comps[0] in glob:
+                    continue
+                ok = False
+                for n in nested:
+                    nc = n.split(".")
+                    k = min(len(nc), len(comps))
+                    if nc[:k] == comps[:k]:
+                        ok = True
+                        break
+                r.hist["oracle"]["attribute-path"] += 1
+                if not ok:
+                    r.oracle_failure(h, f"render (context {ci}) followed `{pth}` but no name of undeclared_variables(true) = "
+                                        f"{sorted(nested)} lies on that path, for {src!r}", "unreported-attribute-path")
         # ---- correspondence B: recorded keys ⊆ look-ups the model semantics can perform
         if m is not None and "may" in m:
             if m["may"].startswith("SKIP"):
@@ -146,15 +178,16 @@ def run(r):
                 sem_checked += 1
                 r.hist["semantics_tie"]["checked"] += 1
                 may = set(m["may"].split())
-                extra = allreads - may - {k for k in allreads if k.startswith("<")}
+                extra = allreads - may - set(d.get("foreign", [])) - {k for k in allreads if k.startswith("<")}
                 if extra:
                     r.model_disagreement(h, "render asked the context for " + " ".join(sorted(extra)) + " in " + repr(src),
                                          "no execution of the model semantics looks these up (may=" + " ".join(sorted(may)) + ")")
                 # the theorem, re-checked on the concrete instance
-                if not may <= (set(m["und"].split()) | selfref):
-                    r.broken.append(f"model look-ups {sorted(may)} not within findUndeclared ∪ selfRefs for {src!r} "
+                if not may <= set(m["und"].split()):
+                    r.broken.append(f"model look-ups {sorted(may)} not within findUndeclared for {src!r} "
                                     "(contradicts the proved theorem: driver/model mismatch)")
     r.extra["analysis_tie_checked"] = tie_checked
+    r.extra["closure_tie_checked"] = closure_checked
     r.extra["semantics_tie_checked"] = sem_checked
     r.extra["semantics_tie_skipped"] = sem_skipped
     if tie_checked == 0:
